@@ -116,7 +116,7 @@ const c02Rules = "# header\nSecRule ARGS \"@rx OLD\" \\\n    \"id:123456,\\\n   
 
 func C02(r *core.Run) {
 	shrinkAllowFlags = true
-	spec := sweepSpec{Tokens: c02Tokens, One: r.Pick(3, 4), Two: 2, Three: r.Thorough(), StructLen: 0, Mixed: true, FullHdr: 2, Flags: true, HdrOnly: true, PreSuf: true}
+	spec := sweepSpec{Tokens: c02Tokens, One: r.Pick(3, 4), Two: 2, Three: r.Thorough(), StructLen: 0, Mixed: true, FullHdr: 2, Flags: true, HdrOnly: true, PreSuf: true, RawHalves: true}
 	if r.Degraded() {
 		spec = sweepSpec{Tokens: c02Tokens, One: 2, Two: 1, FullHdr: 1, Flags: true, HdrOnly: true}
 	}
@@ -236,7 +236,7 @@ func C02(r *core.Run) {
 	r.Cov["transitions"] = res.Stats.Programs
 	r.Cov["update_roundtrips"] = rtCount
 	r.Cov["traces_validated_against_impl"] = res.Validated + rtCount
-	r.Cov["rule"] = "program strata A and C of C01 plus stratum H (programs whose body assembles to nothing: every entry as prefix and/or suffix line, alone or beside an empty block) over the token alphabet extended by raw TAB, 0x01, DEL, \\x22, \\Q\"\\E, \\x{2019}; every compiling program's output is lexed against the pasting clauses; states = compiling programs; non-trivial = output text differs from the program text; lower bound (entries <= 2 tokens) additionally written with `regex update` and read back"
+	r.Cov["rule"] = "program strata A and C of C01 plus stratum H (programs whose body assembles to nothing: every entry as prefix and/or suffix line, alone or beside an empty block) over the token alphabet extended by raw TAB, 0x01, DEL, \\x22, \\Q\"\\E, \\x{2019}; every compiling program's output is lexed against the pasting clauses; states = compiling programs; non-trivial = output text differs from the program text; lower bound (entries <= 2 tokens) additionally written with `regex update` and read back; stratum U (entries of <= 2 tokens and pairs of single tokens over the upper-case escape classes \\S \\D \\W and their neighbours, under every flag setting)"
 	r.Cov["samples"] = []any{
 		Prog{Flags: "is", Lines: [][]string{{`\\`, `"`}}}.Text(),
 		Prog{Lines: [][]string{{"[", `\s`, "!-~", "]"}}}.Text(),
